@@ -68,8 +68,9 @@ type child struct {
 	tokN      int
 	allKeys   []string // base64 AES keys of every agent registered (frames carrying them carry keys)
 
-	cur   atomic.Pointer[caseRun]
-	storm atomic.Bool
+	cur    atomic.Pointer[caseRun]
+	storm  atomic.Bool
+	locals sync.Map // local addresses of every connection the harness opened to /havoc/
 
 	authed    int // operator connections the harness has authenticated and not yet closed
 	aliceScan int
@@ -100,6 +101,7 @@ type caseRun struct {
 	hookHit  bool
 	hookS0   *snap
 	hookErr  error
+	storm    bool // concurrent phase: user connect notices are live events too
 	sent     bool // a complete first message went out
 	errSeen  int
 	accepted bool
@@ -113,6 +115,7 @@ func (cr *caseRun) addTok(tok, phase string) {
 }
 
 var errWedge = errors.New("broadcast blocked: an operator-connection write mutex is held forever")
+var errObserverRejected = errors.New("the observer's valid login was rejected")
 var errSlow = errors.New("broadcast did not arrive at the authenticated observer within the bound")
 
 func childMain(jobPath string) int {
@@ -138,7 +141,14 @@ func childMain(jobPath string) int {
 	}
 	ch.rng = rand.New(rand.NewSource(seed))
 	if err := ch.setup(); err != nil {
-		rec.Inconclusive("rig setup failed: " + err.Error())
+		if errors.Is(err, errObserverRejected) {
+			sp := opCase("valid", "alice", loginTree("alice", digestOf(opPassword("alice"))), "accept")
+			rec.Violation("rejected-valid-login", "the valid first message of operator alice (profile name, SHA3-256 hex digest of the profile password) was answered with InitConnection/Error by this process's own teamserver",
+				map[string]any{"spec": sp, "message": sp.Pre})
+			rec.Exit("observer-rejected", -1)
+			return exitRestart
+		}
+		rec.emit(Event{T: "note", What: "rig setup failed: " + err.Error()})
 		next := 0
 		if len(job.Cases) > 0 {
 			next = job.Cases[0].ID
@@ -150,6 +160,7 @@ func childMain(jobPath string) int {
 		sp := &job.Cases[i]
 		var restart bool
 		t0 := time.Now()
+		rec.Hold()
 		switch sp.EP {
 		case "svc":
 			restart = ch.runSvc(sp)
@@ -160,6 +171,13 @@ func childMain(jobPath string) int {
 		}
 		rec.Observe("ms:case:"+sp.EP, time.Since(t0).Milliseconds())
 		ch.longLivedCheck(sp)
+		if fp := ch.foreignPeers(); len(fp) > 0 {
+			n := rec.Release(false)
+			rec.Inconclusive(fmt.Sprintf("case %d discarded (%d verdict events): connections from %v reached this rig's teamserver but were not opened by this harness (port clash with another rig)", sp.ID, n, fp))
+			restart = true
+		} else {
+			rec.Release(true)
+		}
 		if restart {
 			rec.Exit("restart", sp.ID+1)
 			ch.hits()
@@ -191,7 +209,7 @@ func (ch *child) setup() error {
 	ch.dbPath = filepath.Join(r.Dir, "data", "teamserver.db")
 	ch.loot = filepath.Join(r.Dir, "data", "loot")
 	ch.tokPrefix = "c06" + randHex(ch.rng, 6)
-	ch.hc = &http.Client{Timeout: 45 * time.Second, Transport: &http.Transport{DisableKeepAlives: true}}
+	ch.hc = &http.Client{Timeout: 45 * time.Second}
 	verifhook.Set("ws.first_read", ch.firstReadHook)
 
 	h, err := r.StartHTTP(handlers.HTTPConfig{Name: "c06-http"})
@@ -202,11 +220,22 @@ func (ch *child) setup() error {
 	if !rig.WaitTCP("127.0.0.1:"+h.Config.PortBind, 20*time.Second) {
 		return fmt.Errorf("http listener never accepted")
 	}
-	a, err := opclient.Connect(ch.addr, "alice", opPassword("alice"))
+	a, err := opclient.Dial(ch.addr, nil)
+	if err != nil {
+		return fmt.Errorf("observer dial: %w", err)
+	}
+	ch.alice = a
+	ch.locals.Store(a.Conn.LocalAddr().String(), true)
+	if err := ch.ownEntry(a.Conn.LocalAddr().String()); err != nil {
+		return err
+	}
+	ok, err := a.Login("alice", opPassword("alice"), 60*time.Second)
 	if err != nil {
 		return fmt.Errorf("observer login: %w", err)
 	}
-	ch.alice = a
+	if !ok {
+		return errObserverRejected
+	}
 	ch.authed = 1
 	a.Quiesce(100*time.Millisecond, 3*time.Second)
 	// one agent up front so that console/task broadcasts have a target
@@ -250,7 +279,39 @@ func (ch *child) dial() (*probe, error) {
 	}
 	p.cl = cl
 	p.local = cl.Conn.LocalAddr().String()
+	ch.locals.Store(p.local, true)
+	if err := ch.ownEntry(p.local); err != nil {
+		cl.Close()
+		return nil, err
+	}
 	return p, nil
+}
+
+// ownEntry verifies that a connection the harness has opened arrived at THIS process's
+// teamserver. Rig ports are picked with listen(:0)/close and bound a moment later, so two
+// rigs started at the same time (other shards, other properties' workers, which use the
+// same operator names) can end up talking to each other; such a case is discarded.
+func (ch *child) ownEntry(local string) error {
+	for i := 0; i < 5000; i++ {
+		if id, _ := ch.findEntry(local); id != "" {
+			return nil
+		}
+		time.Sleep(time.Millisecond)
+	}
+	return fmt.Errorf("connection %s did not arrive at this process's teamserver (port clash with another rig)", local)
+}
+
+// foreignPeers lists stored connections that the harness did not open.
+func (ch *child) foreignPeers() []string {
+	var out []string
+	ch.ts.Clients.Range(func(k, v any) bool {
+		ip := v.(*server.Client).GlobalIP
+		if _, ok := ch.locals.Load(ip); !ok {
+			out = append(out, ip)
+		}
+		return true
+	})
+	return out
 }
 
 func (ch *child) newTok(kind string) string {
@@ -267,14 +328,13 @@ func (ch *child) waitAlice(pred func(opclient.Frame) bool) error {
 	if _, ok := ch.alice.WaitFor(pred, 4*time.Second); ok {
 		return nil
 	}
-	if held := observe.HeldClientLocks(ch.ts, 400*time.Millisecond); len(held) > 0 {
-		return errWedge
-	}
-	if _, ok := ch.alice.WaitFor(pred, 40*time.Second); ok {
-		return nil
-	}
-	if held := observe.HeldClientLocks(ch.ts, 400*time.Millisecond); len(held) > 0 {
-		return errWedge
+	for i := 0; i < 10; i++ {
+		if held := observe.HeldClientLocks(ch.ts, 400*time.Millisecond); len(held) > 0 {
+			return errWedge
+		}
+		if _, ok := ch.alice.WaitFor(pred, 4*time.Second); ok {
+			return nil
+		}
 	}
 	return errSlow
 }
@@ -537,6 +597,17 @@ func (ch *child) dbRows() (a, l, li []string) {
 	return
 }
 
+// clientTable describes the stored connections (for witnesses).
+func (ch *child) clientTable() []string {
+	var out []string
+	ch.ts.Clients.Range(func(k, v any) bool {
+		c := v.(*server.Client)
+		out = append(out, fmt.Sprintf("%s user=%q peer=%s authenticated=%v", k, c.Username, c.GlobalIP, c.Authenticated))
+		return true
+	})
+	return out
+}
+
 // diff returns "" or the first class of difference and a description.
 func snapDiff(a, b snap, withHarnessEvents bool) (key, what string) {
 	if d := observe.Diff(a.Obs, b.Obs); len(d) > 0 {
@@ -655,7 +726,9 @@ func (ch *child) frameKind(cr *caseRun, f opclient.Frame) (kind, phase string, k
 	switch {
 	case bytes.Contains(raw, []byte(ch.tokPrefix)), keys, bytes.Contains(raw, []byte("c06-http")):
 		return "replay", "", keys
-	case f.Head.Event == opclient.EvTS, f.Head.Event == opclient.EvChat && (f.Body.SubEvent == opclient.ChatNewUser || f.Body.SubEvent == opclient.ChatUserDisc):
+	case f.Head.Event == opclient.EvTS:
+		return "replay", "", keys
+	case f.Head.Event == opclient.EvChat && (f.Body.SubEvent == opclient.ChatNewUser || f.Body.SubEvent == opclient.ChatUserDisc) && !(cr != nil && cr.storm):
 		return "replay", "", keys
 	}
 	return "live", "", keys
@@ -684,12 +757,21 @@ func (ch *child) checkProbe(cr *caseRun, p *probe, checkpoint string) {
 			continue
 		}
 		kind, phase, keys := ch.frameKind(cr, f)
+		if cr.storm && kind == "live" {
+			phase = "storm"
+		}
 		state := checkpoint
 		switch phase {
 		case "pre":
 			state = "silent"
 		case "win":
 			state = "window"
+		case "storm":
+			// concurrent phase: the frame arrived before the connection's message was read
+			// or between first read and verdict - the harness cannot tell which
+			if checkpoint != "silent" {
+				state = "window"
+			}
 		case "post", "fu":
 			if cr.sent {
 				state = "rejected"
@@ -939,7 +1021,7 @@ func (ch *child) runOp(sp *Spec) (restart bool) {
 		}
 	}
 	if haveS0 && S0.Authed != ch.authed {
-		ch.rec.Violation("state:authenticated-without-login", fmt.Sprintf("%d stored connections are marked authenticated before the verdict on the first message, the harness has logged in %d", S0.Authed, ch.authed), map[string]any{"spec": sp})
+		ch.rec.Violation("state:authenticated-without-login", fmt.Sprintf("%d stored connections are marked authenticated before the verdict on the first message, the harness has logged in %d", S0.Authed, ch.authed), map[string]any{"spec": sp, "client_table": ch.clientTable()})
 	}
 	if verdict == "frame" && sp.Expect != "accept" {
 		// let a close that follows the error frame register
@@ -1102,7 +1184,7 @@ func (ch *child) finishAccepted(sp *Spec, cr *caseRun, p *probe, emitDone bool) 
 	}
 	S := ch.snapshot()
 	if S.Authed != ch.authed {
-		ch.rec.Violation("state:authenticated-count", fmt.Sprintf("%d stored connections are marked authenticated after a successful login, expected %d", S.Authed, ch.authed), map[string]any{"spec": sp})
+		ch.rec.Violation("state:authenticated-count", fmt.Sprintf("%d stored connections are marked authenticated after a successful login, expected %d", S.Authed, ch.authed), map[string]any{"spec": sp, "client_table": ch.clientTable()})
 	}
 	// close and wait for the server to notice (UserDisconnected is broadcast by RemoveClient)
 	before := ch.alice.Count()
